@@ -39,7 +39,7 @@ class PathExec:
                 if e["k"] == "field":
                     if v[0] == "ovf":
                         v = v[1] if e["i"] == 0 else ("unknown", "overflow flag")
-                    elif v[0] in ("opt", "res", "branch"):
+                    elif v[0] in ("opt", "res", "branch", "optleft"):
                         v = v[1]
                     elif v[0] == "tuple":
                         v = v[1][e["i"]]
@@ -69,6 +69,12 @@ class PathExec:
             return v
         if k in ("ref", "copy_for_deref"):
             return self.op(env, {"k": "copy", "place": r["place"]})
+        if k == "discr":
+            if not r["place"]["proj"]:
+                v = env.get(r["place"]["local"])
+                if v is not None and v[0] == "optleft":
+                    return ("leftdiscr",)
+            return ("unknown", "discriminant")
         if k == "binop":
             a, b = self.op(env, r["a"]), self.op(env, r["b"])
             o = r["op"]
@@ -131,6 +137,18 @@ class PathExec:
                 if len(cc) == 1 and cc[0].tname == HBT + "len" and ctx.role(cb, cc[0].arg_path(0)) == OLD and cc[0].dest["local"] == 0:
                     return V("oz" + ver)
             return ("unknown", "map_or")
+        if name == OPT + "map" and len(c.args) == 2 and c.closure_args():
+            # LEFT.as_ref().map(|t| t.table.len()): Some(o) exactly when an old table is pending
+            src = b.source_def(c.args[0])
+            from_left = is_self_left(ctx, b, c.arg_path(0))
+            if src is not None and src[1] == "call":
+                sc = ctx.call_at(b, src[0].bb)
+                if sc.name in (OPT + "as_ref", OPT + "as_mut") and is_self_left(ctx, b, sc.arg_path(0)):
+                    from_left = True
+            cb = c.closure_args()[0]
+            cc = [x for x in ctx.calls(cb) if not cb.is_cleanup(x.loc.bb)]
+            if from_left and len(cc) == 1 and cc[0].tname == HBT + "len" and ctx.role(cb, cc[0].arg_path(0)) == OLD and cc[0].dest["local"] == 0:
+                return ("optleft", V("o" + ver))
         if name in (OPT + "and_then", OPT + "map") and len(args) == 2 and args[0][0] == "opt" and args[1][0] == "closure":
             cb = ctx.facts.by_dpath.get(args[1][1])
             if cb is not None and not cb.loops():
@@ -343,6 +361,24 @@ class PathExec:
                         st2["ne"] = True      # not pending, or pending and non-empty
                     else:
                         st2["empty"] = True
+                if cond[0] == "leftdiscr":
+                    vals = [v for v, tb in t["targets"] if tb == s_]
+                    lf2 = None
+                    if vals == [1]:
+                        lf2 = S
+                    elif vals == [0]:
+                        lf2 = N
+                    elif s_ == t["otherwise"] and not vals:
+                        others = [v for v, _ in t["targets"]]
+                        lf2 = N if others == [1] else S if others == [0] else None
+                        if b.term(s_)["k"] == "unreachable":
+                            continue
+                    if lf2 is not None:
+                        if st2["left"] in (N, S) and st2["left"] != lf2:
+                            continue
+                        st2["left"] = lf2
+                        if lf2 == N:
+                            st2["ne"] = True
                 if cond[0] == "cmp":
                     vals = [v for v, tb in t["targets"] if tb == s_]
                     truth = None
